@@ -6,7 +6,7 @@ def run(ctx):
     q = ctx.tier == "quick"
     ctx.rule = ("TLC enumerates endpoint schedules: every interleaving of client and target programs write^a [shutdown] (a<=3), "
                 "x client early data coalesced with the head x target data sent at once; the harness executes them on real TCP "
-                "sockets through the real proxy over 7 routes (direct, upstream http, https, socks5, ConnectFunc returning a plain "
+                "sockets through the real proxy over 9 routes (direct, upstream http - also with Content-Length / Transfer-Encoding on its 200 -, https, socks5, ConnectFunc returning a plain "
                 "ReadWriteCloser, HTTP/1.1 Upgrade, TLS listener + https upstream) with blocks of 1 B..3 MiB - sequentially, or (par) "
                 "by two endpoint threads at once with MiB blocks so that both copy directions are busy together -, verifying every block, end-of-stream after the last byte and continued flow "
                 "in the other direction; the recorded endpoint traces are validated by TLC against Tunnel.tla (proxy steps "
